@@ -204,11 +204,22 @@ func NewProofStructure(index, sign int, factor uint, bound *big.Int, splitter Sq
 		// Not all numbers can be written as sum of 3 squares, but n for which n == 2 (mod 4) can
 		// so ensure that factor*m-bound falls into that category
 		factor *= 4
-		bound = new(big.Int).Mul(bound, big.NewInt(4)) // ensure we dont overwrite callers copy of bound
-		bound.Sub(bound, big.NewInt(2))
+		bound = threeSquaresBound(sign, bound)
 	}
 
 	return newWithParams(index, sign, factor, bound, splitter, splitter.SquareCount(), splitter.Ld())
+}
+
+// threeSquaresBound rescales the bound of a statement with factor 1 for use with three squares:
+// not all numbers are sums of three squares, but all n == 2 (mod 4) are. For integers m,
+// m >= bound iff 4m >= 4*bound-2, and m <= bound iff 4m <= 4*bound+2; in both cases the
+// difference to be split is 2 (mod 4).
+func threeSquaresBound(sign int, bound *big.Int) *big.Int {
+	result := new(big.Int).Mul(bound, big.NewInt(4)) // ensure we dont overwrite callers copy of bound
+	if sign == -1 {
+		return result.Add(result, big.NewInt(2))
+	}
+	return result.Sub(result, big.NewInt(2))
 }
 
 func newWithParams(index, sign int, a uint, k *big.Int, split SquareSplitter, nSplit int, ld uint) (*ProofStructure, error) {
@@ -451,8 +462,7 @@ func (p *Proof) ProvesStatement(sign int, factor uint, bound *big.Int) bool {
 			return false
 		}
 		factor *= 4
-		bound = new(big.Int).Mul(bound, big.NewInt(4))
-		bound.Sub(bound, big.NewInt(2))
+		bound = threeSquaresBound(sign, bound)
 	}
 	return p.Sign == sign && p.A == factor &&
 		(p.K.Cmp(bound) == 0 || p.K.Cmp(bound) == sign)
@@ -476,7 +486,11 @@ func (p *Proof) ProvenStatement() (StatementType, uint, *big.Int) {
 	bound := new(big.Int).Set(p.K)
 	factor := p.A
 	if len(p.Cs) == 3 {
-		bound.Add(bound, big.NewInt(2)).Rsh(bound, 2)
+		// 4m >= k implies m >= floor((k+2)/4); 4m <= k implies m <= floor(k/4)
+		if p.Sign != -1 {
+			bound.Add(bound, big.NewInt(2))
+		}
+		bound.Rsh(bound, 2)
 		factor >>= 2
 	}
 	var typ StatementType
